@@ -12,7 +12,7 @@ THEOREMS = [
     "Mtv.Client.too_deep_is_warned",
     "Mtv.Client.body_decoding_total",
 ]
-RULE = ('hostile histories on the real client: pong, msgs_ack, update objects, unknown constructor, truncated body, empty container, bad_msg_notification (stray and for a pending request), rpc_result for unknown and already answered ids, new_session_created, containers of these, orderly connection close at random points; well-formed notifications whose enumerated field is outside the list of the specification (bad_msg_notification with every error_code 0..255, negative and large codes, for unknown ids, for a pending request, for one of the acknowledgements the client wrote; bad_server_salt with other codes than 48); a probe that has encoded its request and waits for the write lock (a slow write in progress, produced through the write hook) while the receive loop acknowledges content-related messages, with GOMAXPROCS 1 and unchanged (the peer checks every request and msgs_ack byte for byte) — each followed by a probe request of a fresh caller that must return its own result; the process must survive (a panic in the receive goroutine kills the harness process and is attributed to the scenario), no unencrypted frame may appear after a reconnect. distinct = distinct scenarios')
+RULE = ('hostile histories on the real client: pong, msgs_ack, update objects, unknown constructor, truncated body, empty container, bad_msg_notification (stray and for a pending request), rpc_result for unknown and already answered ids, new_session_created, containers of these, orderly connection close at random points; well-formed notifications whose enumerated field is outside the list of the specification (bad_msg_notification with every error_code 0..255, negative and large codes, for unknown ids, for a pending request, for one of the acknowledgements the client wrote; bad_server_salt with other codes than 48); a probe that has encoded its request and waits for the write lock (a slow write in progress, produced through the write hook) while the receive loop acknowledges content-related messages, with GOMAXPROCS 1 and unchanged (the peer checks every request and msgs_ack byte for byte); every service message a server may send that is a request to the client or an informational message (msgs_state_req, msg_resend_req, msg_resend_ans_req, msgs_state_info, msgs_all_info, msg_detailed_info, msg_new_detailed_info, future_salts, destroy_session_ok/none, rpc_answer_unknown/dropped_running/dropped, ping), well-formed, with empty and non-empty id lists, alone, with a request pending, in a container, gzip_packed (plan item z(<item>)), as content-related and as not content-related message; service messages whose 32-bit count / length fields carry values a decoder may read as signed (container count, byte length of a container member, vector counts of msgs_ack, msgs_state_req, msg_resend_req, msgs_all_info, future_salts at 2^31-1, 2^31, 2^32-1, their neighbours and random values, with nothing, one and two elements behind them; alone, in containers, gzip_packed, nested); server msg_ids anywhere in the unsigned 64-bit range — each followed by a probe request of a fresh caller that must return its own result; the process must survive (a panic in the receive goroutine kills the harness process and is attributed to the scenario), no unencrypted frame may appear after a reconnect. distinct = distinct scenarios')
 
 
 def run(ctx):
